@@ -50,7 +50,8 @@ def eval_call(I, node, frame):
             if z3.is_false(sa):
                 return mk_bool(True)          # antecedent impossible on this path: the consequent is not evaluated
             # the consequent is evaluated under the antecedent (class narrowing, optional fields, kinds)
-            I.path.pc.append(a)
+            from .interp import push_guard
+            push_guard(I.path, a)
             try:
                 try:
                     b = I.truth(I.eval(node.args[1], frame))
@@ -61,10 +62,8 @@ def eval_call(I, node, frame):
                         raise
             finally:
                 # remove exactly the antecedent pushed above (forks inside may have appended after it)
-                idx = max(i for i, c in enumerate(I.path.pc) if c is a)
-                extra = I.path.pc[idx + 1:]
-                del I.path.pc[idx:]
-                I.path.pc.extend(extra)
+                from .interp import pop_guard
+                pop_guard(I.path, a)
             return mk_bool(z3.Implies(a, b))
         if fn.id == 'ite' and I.spec:
             c = I.truth(I.eval(node.args[0], frame))
